@@ -70,6 +70,20 @@ pub open spec fn typedef_text_ok(t: DescTransformer, def: TypeDef, s: Seq<char>)
             && s == bitseq_text(d1, d2),
     }
 }
+pub open spec fn prefix_text(def: TypeDef) -> Seq<char> {
+    match def {
+        TypeDef::Variant(_) => seq!['e', 'n', 'u', 'm', ' '],
+        TypeDef::Composite(_) => seq!['s', 't', 'r', 'u', 'c', 't', ' '],
+        _ => Seq::<char>::empty(),
+    }
+}
+pub open spec fn full_text(ty: Type, dt: Seq<char>) -> Seq<char> {
+    prefix_text(ty.type_def) + (if ty.path.segments@.len() > 0 { name_text(ty) } else { Seq::<char>::empty() }) + dt
+}
+/// the full description of a type: `struct ` / `enum ` / nothing, the name (with its generic arguments) if the type has a path, the definition
+pub open spec fn ty_text_ok(t: DescTransformer, ty: Type, s: Seq<char>) -> bool {
+    exists|dt: Seq<char>| #[trigger] typedef_text_ok(t, ty.type_def, dt) && s == full_text(ty, dt)
+}
 pub proof fn lemma_upto_n_ext(a: Seq<Seq<char>>, b: Seq<Seq<char>>, k: int, n: int, sc: bool)
     requires 0 <= k <= a.len(), k <= b.len(), forall|i: int| 0 <= i < k ==> a[i] == b[i],
     ensures items_upto_n(a, k, n, sc) == items_upto_n(b, k, n, sc),
